@@ -121,6 +121,24 @@ def dominators_root(facts):
             if not t["args"] or ("field", "dominators") not in leaves(b.expr(t["args"][0], 8)):
                 continue
             n += 1
+            # only the PRESENCE of an entry is looked at (match get(..) { Some(_) => .., None => .. }, is_some()): no value is read
+            d = t["dest"]["l"] if not t["dest"]["p"] else None
+            if d is not None:
+                uses_payload = False
+                for i2, j2, st2 in b.stmts():
+                    pls = [st2["lhs"]] + ([st2["rv"]["pl"]] if st2["rv"].get("pl") and st2["rv"]["k"] != "discr" else []) + \
+                          [q for q in (op_place(o_) for o_ in st2["rv"].get("o", [])) if q]
+                    for pl in pls:
+                        if pl["l"] == d and (st2["rv"]["k"] != "discr" or pl is not st2["rv"].get("pl")):
+                            uses_payload = True
+                for i2, t2 in b.calls():
+                    for a in t2["args"]:
+                        q = op_place(a)
+                        if q and q["l"] == d and last_seg(t2["f"]["path"]) not in ("is_some", "is_none"):
+                            uses_payload = True
+                if not uses_payload:
+                    o.check(b, "idom-read#%d" % n, t["line"], True, "only the presence of the entry is tested, no idom value is read", "")
+                    continue
             ok = any(isinstance(e, tuple) and e[0] == "bin" and e[1] == "Ne" and truth is True and ("field", "root") in leaves(e)
                      for (e, truth, src) in dom_atoms(b, i))
             o.check(b, "idom-read#%d" % n, t["line"], ok, "idom value read only under node != self.root",
@@ -213,6 +231,11 @@ def none_after_some(facts):
             rv = st["rv"]
             if st["lhs"]["l"] == 0 and not st["lhs"]["p"] and rv["k"] == "agg" and rv.get("name") == "core::option::Option" and rv.get("variant") == "None":
                 sites.append((i, st["line"]))
+        # `inner.next()?` - the end of the iteration is the inner iterator's own end: fine by construction, counted as a site
+        for i, t in b.calls():
+            if last_seg(t["f"]["path"]) == "from_residual" and t["dest"]["l"] == 0 and not t["dest"]["p"]:
+                n += 1
+                r.ok(b.npath, "none-propagated@%d" % len([x for x in r.instances if x["func"] == b.npath]), "`?` on the underlying source: ends exactly when it ends")
         k = 0
         for (i, line) in sites:
             k += 1
